@@ -52,6 +52,10 @@ type Scenario struct {
 	// Raw: the handshake transports are driven directly (no mux): every
 	// stream is of kind raw
 	Raw bool `json:"raw,omitempty"`
+	// AsyncReply: the handlers of incoming global requests hand the reply to
+	// a separate task instead of writing it themselves, so that the inbound
+	// request stream is consumed no matter what happens to writes
+	AsyncReply bool `json:"async_reply,omitempty"`
 }
 
 var cipherChoices = []string{"", "", "", "aes128-gcm@openssh.com", "chacha20-poly1305@openssh.com", "aes128-ctr", "aes256-ctr"}
@@ -67,6 +71,7 @@ func gen(r *rand.Rand, prop, tier string, index int) any {
 	}
 	s.StallDen = []int{0, 1, 2, 4}[r.IntN(4)]
 	s.LinkCap = []int{0, 0, 512, 4096, 65536}[r.IntN(5)]
+	s.AsyncReply = r.IntN(3) == 0
 	maxW := 4
 	maxRec := 12
 	if tier == "thorough" {
@@ -167,6 +172,8 @@ type run struct {
 	// Request.Reply (it writes a packet while it is the only consumer of the
 	// inbound request stream).
 	inReply [2]bool
+	replyQ  [2][]*ssh.Request
+	replyK  [2]struct{ _ int }
 }
 
 type openMsg struct{ Index uint32 }
@@ -350,9 +357,27 @@ func (r *run) gotRequest(side int, kind string, idx int, payload []byte) {
 
 func (r *run) globalReqs(side int, reqs <-chan *ssh.Request) {
 	rt.SetName(fmt.Sprintf("greqs%d", side))
+	if r.s.AsyncReply {
+		go func() {
+			rt.SetName(fmt.Sprintf("replier%d", side))
+			for {
+				for len(r.replyQ[side]) == 0 {
+					rt.Park(&r.replyK[side], "replier-idle")
+				}
+				rq := r.replyQ[side][0]
+				r.replyQ[side] = r.replyQ[side][1:]
+				rq.Reply(true, rq.Payload[:8])
+			}
+		}()
+	}
 	for rq := range reqs {
 		r.gotRequest(side, "global", -1, rq.Payload)
 		if rq.WantReply {
+			if r.s.AsyncReply {
+				r.replyQ[side] = append(r.replyQ[side], rq)
+				rt.Wake(&r.replyK[side])
+				continue
+			}
 			r.inReply[side] = true
 			rq.Reply(true, rq.Payload[:8])
 			r.inReply[side] = false
@@ -440,6 +465,9 @@ func (r *run) writer(id int) {
 		}
 		if err != nil {
 			ss.werr = err
+			if r.fatal || r.phase == 2 {
+				return // the run was ended by the harness
+			}
 			r.c.Violate(Prop, "write-failed", "stream %d (%s, side %d): write of record #%d failed on a fault-free connection: %v", id, st.Kind, st.Side, seq, err)
 			return
 		}
@@ -524,6 +552,21 @@ func (r *run) onIdle() bool {
 			if !ss.wdone || ss.received != ss.expect {
 				incomplete = true
 			}
+		}
+		if incomplete && r.inReply[0] && r.inReply[1] {
+			// Both request handlers are blocked in Request.Reply: neither side
+			// "keeps reading" its request stream, each waits for the other to
+			// drain a full link (or a full queue). That circular wait between
+			// two applications that write from their only inbound consumer
+			// exists over any transport with bounded buffers; the property's
+			// liveness clause presupposes a peer that keeps reading, so no
+			// verdict is drawn from this run.
+			rt.Probe("both-handlers-blocked-in-reply")
+			r.c.State("both handlers blocked in reply")
+			r.fatal = true
+			r.phase = 2
+			rt.Wake(&r.ctl)
+			return true
 		}
 		for side := 0; side < 2; side++ {
 			if incomplete && r.inReply[side] && r.inKex[side] {
@@ -645,6 +688,11 @@ func shrink(scnAny any) []any {
 	if s.LinkCap != 0 {
 		n := cp()
 		n.LinkCap = 0
+		out = append(out, n)
+	}
+	if !s.AsyncReply && !s.Raw {
+		n := cp()
+		n.AsyncReply = true
 		out = append(out, n)
 	}
 	return out
